@@ -18,6 +18,7 @@ From Coq Require Import ZArith NArith List String.
 Require Import ListN Result Bytes Prog Tensor Codec CodecRT
   C05_JsParser C05_Spec C05_View C05_Header C05_HeaderView C05_Body C05_Index C05_Cells C05_Main C05_V01 C05_V00
   C05_GenTie C05_Examples C01_Examples.
+Require Import CodecGenTie.
 Import ListNotations.
 Open Scope list_scope.
 Open Scope nat_scope.
@@ -236,3 +237,33 @@ Theorem C05_tie_types : Gen_C05.types_fields =
     ("PoseModel", ["header"; "body"]) ]%string.
 Proof. exact types_fields_tie. Qed.
 Print Assumptions C05_tie_types.
+
+(* ---- the Python side of the comparison: the reader functions whose result parsePose is compared with (tied statement by
+   statement, as in C01 / C06 / C07: an edit of the Python reader re-opens this property too) ---- *)
+Theorem C05_tie_py_header_read : Gen_Codec.header_read = exp_header_read.
+Proof. exact header_read_tie. Qed.
+Print Assumptions C05_tie_py_header_read.
+Theorem C05_tie_py_component_read : Gen_Codec.component_read = exp_component_read.
+Proof. exact component_read_tie. Qed.
+Print Assumptions C05_tie_py_component_read.
+Theorem C05_tie_py_dimensions_read : Gen_Codec.dimensions_read = exp_dimensions_read.
+Proof. exact dimensions_read_tie. Qed.
+Print Assumptions C05_tie_py_dimensions_read.
+Theorem C05_tie_py_body_read_dispatch : Gen_Codec.body_read_dispatch = exp_body_read_dispatch.
+Proof. exact body_read_dispatch_tie. Qed.
+Print Assumptions C05_tie_py_body_read_dispatch.
+Theorem C05_tie_py_body_read_v0_2 : Gen_Codec.body_read_v0_2 = exp_body_read_v0_2.
+Proof. exact body_read_v0_2_tie. Qed.
+Print Assumptions C05_tie_py_body_read_v0_2.
+Theorem C05_tie_py_body_read_frames : Gen_Codec.body_read_frames = exp_body_read_frames.
+Proof. exact body_read_frames_tie. Qed.
+Print Assumptions C05_tie_py_body_read_frames.
+Theorem C05_tie_py_pose_read : Gen_Codec.pose_read = exp_pose_read.
+Proof. exact pose_read_tie. Qed.
+Print Assumptions C05_tie_py_pose_read.
+Theorem C05_tie_py_reader_unpack_str : Gen_Codec.reader_unpack_str = exp_reader_unpack_str.
+Proof. exact reader_unpack_str_tie. Qed.
+Print Assumptions C05_tie_py_reader_unpack_str.
+Theorem C05_tie_py_reader_unpack_numpy : Gen_Codec.reader_unpack_numpy = exp_reader_unpack_numpy.
+Proof. exact reader_unpack_numpy_tie. Qed.
+Print Assumptions C05_tie_py_reader_unpack_numpy.
